@@ -6,6 +6,9 @@ ids=${@:-$(ls seeded)}
 for sid in $ids; do
   id=${sid%%-*}
   p=seeded/$sid/patch.diff; [ -f $p ] || continue
+  # every overlay build leaves its own artefacts in the Go build cache: trim it before the disk fills up
+  free=$(df --output=avail -BG / | tail -1 | tr -dc 0-9)
+  if [ "${free:-100}" -lt 25 ]; then (. bin/env.sh; go clean -cache >/dev/null 2>&1); fi
   ov=/tmp/ovl/eval-$sid
   if ! git -C /repo apply --check $PWD/$p 2>/dev/null; then
     echo "$sid: patch does not apply to the current tree (see seeded/$sid/NOTE.md)"; continue
